@@ -13,6 +13,7 @@ import GoNeat.Driver.IO
 import GoNeat.Driver.Innov
 import GoNeat.Driver.History
 import GoNeat.Driver.ModNet
+import GoNeat.Driver.Sort
 
 namespace GoNeat.Driver
 def allOps : List (String × Handler) :=
@@ -30,4 +31,5 @@ def allOps : List (String × Handler) :=
   ++ innovOps
   ++ historyOps
   ++ modNetOps
+  ++ sortOps
 end GoNeat.Driver
